@@ -680,6 +680,8 @@ def simplify_call(path, args, trait_path=None):
 
 
 def mk_field(e, name):
+    if e[0] == "const" and name == "0" and e[1] in NEWTYPES:
+        return e          # `MAX_COINVAL.0`: the wrapper of an integer newtype constant is not rendered
     if e[0] == "agg":
         for (n, v) in e[3]:
             if n == name:
